@@ -59,23 +59,86 @@ type owDef struct {
 
 var offsetWrites = []owDef{{-2, 0}, {-1, 0}, {-1, 442}, {-1, 443}, {-1, 2*mib - 4}, {-1, 2*mib - 3}, {-1, 4 * mib}, {0, 0}, {0, 442}, {0, 443}, {1, 0}}
 
-// content of a bare structure, in terms of its size S: list of (image size, declared size (0 none), explicit offset (-1 none))
+// content of a bare structure, in terms of its size S. Image FILE size, DECLARED content size and content
+// offset are independent dimensions.
 type imgDef struct {
-	num, den int   // image size = S*num/den + add
+	num, den int   // image file size = S*num/den + add
 	add      int64 //
-	declared int   // 0: no size; 1: declared = image size; 2: declared = image size - 1 (too small for the image)
-	offset   int64 // -1 implicit
+	declared int   // 0: no size; 1: declared = file size; 2: file size - 1 (too small for the image); 3: file size + S/4; 4: file size + S/2
+	offset   int64 // -1 implicit (after the previous content); else explicit offset = S*offNum/offDen + offset (offDen 0: just offset)
+	offNum   int
+	offDen   int
 }
 
+// legacy families (index 0..7); the generated product families follow (see init)
 var contents = [][]imgDef{
 	nil,
-	{{1, 1, 0, 0, -1}},                     // exactly fills the structure
-	{{1, 1, 1, 0, -1}},                     // one byte too large
-	{{1, 2, 0, 0, -1}, {1, 2, 0, 0, -1}},   // two halves
-	{{1, 2, 0, 0, -1}, {1, 2, 1, 0, -1}},   // second one overflows by one byte
-	{{1, 1, 0, 0, 1}},                      // fills the structure but is shifted by one byte
-	{{1, 2, 0, 2, -1}},                     // declared size smaller than the image
-	{{1, 2, 0, 1, -1}, {1, 2, 0, 1, 0}},    // second image explicitly placed over the first
+	{{1, 1, 0, 0, -1, 0, 0}},                        // exactly fills the structure
+	{{1, 1, 1, 0, -1, 0, 0}},                        // one byte too large
+	{{1, 2, 0, 0, -1, 0, 0}, {1, 2, 0, 0, -1, 0, 0}}, // two halves
+	{{1, 2, 0, 0, -1, 0, 0}, {1, 2, 1, 0, -1, 0, 0}}, // second one overflows by one byte
+	{{1, 1, 0, 0, 1, 0, 0}},                         // fills the structure but is shifted by one byte
+	{{1, 2, 0, 2, -1, 0, 0}},                        // declared size smaller than the image
+	{{1, 2, 0, 1, -1, 0, 0}, {1, 2, 0, 1, 0, 0, 0}},  // second image explicitly placed over the first
+}
+
+const legacyFamilies = 8
+
+// index ranges [from, to) into contents of the generated families
+var (
+	fam1From, fam1To   int // one content entry, full entry alphabet
+	fam2From, fam2To   int // two entries, full entry alphabet squared
+	fam3From, fam3To   int // three entries, reduced entry alphabet cubed
+	entryFull, entryRd []imgDef
+)
+
+// entry alphabet: file size {S/4, S/2, S, S+1} x declared {absent, = file, file-1, file+S/4, file+S/2} x
+// offset {implicit, 0, 1, S/2, 3S/4}. Depending on the start, file+S/4 / file+S/2 is a declared size that still fits,
+// exactly fills what is left of the structure, or reaches beyond the structure's end while the file alone fits.
+func init() {
+	type fs struct {
+		num, den int
+		add      int64
+	}
+	type ofs struct {
+		off      int64
+		num, den int
+	}
+	mk := func(files []fs, decls []int, offs []ofs) []imgDef {
+		var res []imgDef
+		for _, f := range files {
+			for _, d := range decls {
+				for _, o := range offs {
+					res = append(res, imgDef{f.num, f.den, f.add, d, o.off, o.num, o.den})
+				}
+			}
+		}
+		return res
+	}
+	entryFull = mk([]fs{{1, 4, 0}, {1, 2, 0}, {1, 1, 0}, {1, 1, 1}}, []int{0, 1, 2, 3, 4}, []ofs{{-1, 0, 0}, {0, 0, 0}, {1, 0, 0}, {0, 1, 2}, {0, 3, 4}})
+	entryRd = mk([]fs{{1, 4, 0}, {1, 2, 0}}, []int{0, 1, 3, 4}, []ofs{{-1, 0, 0}, {0, 0, 0}, {0, 1, 2}, {0, 3, 4}})
+	if len(contents) != legacyFamilies {
+		panic("legacy families")
+	}
+	fam1From = len(contents)
+	for _, a := range entryFull {
+		contents = append(contents, []imgDef{a})
+	}
+	fam1To, fam2From = len(contents), len(contents)
+	for _, a := range entryFull {
+		for _, b := range entryFull {
+			contents = append(contents, []imgDef{a, b})
+		}
+	}
+	fam2To, fam3From = len(contents), len(contents)
+	for _, a := range entryRd {
+		for _, b := range entryRd {
+			for _, c := range entryRd {
+				contents = append(contents, []imgDef{a, b, c})
+			}
+		}
+	}
+	fam3To = len(contents)
 }
 
 type sdef struct {
@@ -107,6 +170,52 @@ func (s sdef) fixed() bool { return s.minSize() == s.size() }
 
 func (d imgDef) imageSize(S uint64) uint64 { return uint64(int64(S*uint64(d.num)/uint64(d.den)) + d.add) }
 
+// declSize is the declared content size (ok false: no size declared)
+func (d imgDef) declSize(S uint64) (sz uint64, ok bool) {
+	f := d.imageSize(S)
+	switch d.declared {
+	case 1:
+		return f, true
+	case 2:
+		return f - 1, true
+	case 3:
+		return f + S/4, true
+	case 4:
+		return f + S/2, true
+	}
+	return 0, false
+}
+
+// start is the explicit content offset (ok false: implicit, after the previous content)
+func (d imgDef) start(S uint64) (st uint64, ok bool) {
+	if d.offset < 0 {
+		return 0, false
+	}
+	st = uint64(d.offset)
+	if d.offDen != 0 {
+		st += S * uint64(d.offNum) / uint64(d.offDen)
+	}
+	return st, true
+}
+
+func describeContent(ct int, S uint64) string {
+	if ct < legacyFamilies {
+		return fmt.Sprintf("content#%d", ct)
+	}
+	var p []string
+	for _, d := range contents[ct] {
+		t := fmt.Sprintf("file=%d", d.imageSize(S))
+		if sz, ok := d.declSize(S); ok {
+			t += fmt.Sprintf("/size=%d", sz)
+		}
+		if st, ok := d.start(S); ok {
+			t += fmt.Sprintf("@%d", st)
+		}
+		p = append(p, t)
+	}
+	return "content{" + strings.Join(p, ";") + "}"
+}
+
 func (c vcase) short() string {
 	var p []string
 	for _, s := range c.S {
@@ -126,7 +235,7 @@ func (c vcase) short() string {
 			}
 		}
 		if s.Content != 0 {
-			t += fmt.Sprintf(",content#%d", s.Content)
+			t += "," + describeContent(s.Content, s.size())
 		}
 		p = append(p, t)
 	}
@@ -168,14 +277,11 @@ func (c vcase) yaml() string {
 			for _, d := range contents[s.Content] {
 				isz := d.imageSize(s.size())
 				fmt.Fprintf(&b, "          - image: img-%d\n", isz)
-				switch d.declared {
-				case 1:
-					fmt.Fprintf(&b, "            size: %d\n", isz)
-				case 2:
-					fmt.Fprintf(&b, "            size: %d\n", isz-1)
+				if dsz, ok := d.declSize(s.size()); ok {
+					fmt.Fprintf(&b, "            size: %d\n", dsz)
 				}
-				if d.offset >= 0 {
-					fmt.Fprintf(&b, "            offset: %d\n", d.offset)
+				if st, ok := d.start(s.size()); ok {
+					fmt.Fprintf(&b, "            offset: %d\n", st)
 				}
 			}
 		}
@@ -192,13 +298,16 @@ type refLayout struct {
 	owBad   bool // an offset-write target is certainly outside the volume (or refers to the wrong structure)
 	owGray  bool // target inside the laid-out volume but beyond the volume's minimum size
 	fits    bool // all raw content fits its structure without overlap
+	content [][]civ // by yaml index of the structure, in declaration order: reference extent of each content relative to the structure
 }
+
+type civ struct{ a, b uint64 }
 
 // reference placement: explicit offsets are respected; a structure without offset follows the previous one (in yaml
 // order); a non-mbr structure is not placed below 1 MiB implicitly when the previous end is well known.
 func reference(c vcase) refLayout {
 	n := len(c.S)
-	r := refLayout{start: make([]uint64, n), fits: true}
+	r := refLayout{start: make([]uint64, n), fits: true, content: make([][]civ, n)}
 	known := make([]bool, n) // is the start offset fixed by the definition (explicit, or following a fixed-size chain)?
 	prevEnd := uint64(0)
 	prevKnown := true
@@ -275,27 +384,29 @@ func reference(c vcase) refLayout {
 		}
 	}
 	// raw content
-	for _, s := range c.S {
+	for si, s := range c.S {
 		if s.Content == 0 {
 			continue
 		}
-		type iv struct{ a, b uint64 }
-		var ivs []iv
+		var ivs []civ
 		prev := uint64(0)
 		for _, d := range contents[s.Content] {
 			isz := d.imageSize(s.size())
-			sz := isz
-			if d.declared == 2 {
-				r.fits = false // declared size smaller than the image
+			sz := isz // the laid-out size: the declared size when there is one, else the size of the image file
+			if dsz, ok := d.declSize(s.size()); ok {
+				if dsz < isz {
+					r.fits = false // declared size smaller than the image
+				}
+				sz = dsz
 			}
 			st := prev
-			if d.offset >= 0 {
-				st = uint64(d.offset)
+			if est, ok := d.start(s.size()); ok {
+				st = est
 			}
 			if st+sz > s.size() {
 				r.fits = false
 			}
-			ivs = append(ivs, iv{st, st + sz})
+			ivs = append(ivs, civ{st, st + sz})
 			prev = st + sz
 		}
 		for i := range ivs {
@@ -305,6 +416,7 @@ func reference(c vcase) refLayout {
 				}
 			}
 		}
+		r.content[si] = ivs
 	}
 	return r
 }
@@ -426,25 +538,37 @@ func judge1(c vcase) outcome {
 			}
 		}
 	}
-	// content inside its structure, not overlapping, at least as big as the image
+	// content, from the returned LaidOutContent values with their laid-out sizes: inside its structure, contents of one
+	// structure pairwise disjoint (order-free), at least as big as the image file, none lost; beyond the statement:
+	// extent equal to the reference (declared size when there is one, else the file size; explicit offset or the
+	// end of the previously declared content)
 	for _, p := range ps {
-		var prevEnd uint64
-		cs := append([]gadget.LaidOutContent(nil), p.content...)
-		sort.Slice(cs, func(a, b int) bool { return cs[a].StartOffset < cs[b].StartOffset })
+		cs := p.content
 		for k, lc := range cs {
 			a, b := uint64(lc.StartOffset), uint64(lc.StartOffset)+uint64(lc.Size)
+			if uint64(lc.StartOffset) >= 1<<62 || uint64(lc.Size) >= 1<<62 {
+				out.bad = append(out.bad, verdict{"content-offset-wrapped", fmt.Sprintf("%s: content %v of s%d: offset or size wrapped around", c.short(), lc, p.yaml)})
+				continue
+			}
 			if a < p.start || b > p.start+p.size {
 				out.bad = append(out.bad, verdict{"content-outside-structure", fmt.Sprintf("%s: content %v [%d,%d) is not inside s%d [%d,%d)", c.short(), lc, a, b, p.yaml, p.start, p.start+p.size)})
 			}
-			if k > 0 && a < prevEnd {
-				out.bad = append(out.bad, verdict{"content-overlap", fmt.Sprintf("%s: content %v of s%d overlaps the preceding image", c.short(), lc, p.yaml)})
+			for k2 := k + 1; k2 < len(cs); k2++ {
+				a2, b2 := uint64(cs[k2].StartOffset), uint64(cs[k2].StartOffset)+uint64(cs[k2].Size)
+				if a < b2 && a2 < b {
+					out.bad = append(out.bad, verdict{"content-overlap", fmt.Sprintf("%s: contents %v [%d,%d) and %v [%d,%d) of s%d overlap", c.short(), lc, a, b, cs[k2], a2, b2, p.yaml)})
+				}
 			}
 			var isz uint64
 			fmt.Sscanf(lc.Image, "img-%d", &isz)
 			if uint64(lc.Size) < isz {
 				out.bad = append(out.bad, verdict{"content-truncated", fmt.Sprintf("%s: content %v of s%d gets %d bytes for an image of %d", c.short(), lc, p.yaml, lc.Size, isz)})
 			}
-			prevEnd = b
+			if rc := ref.content[p.yaml]; ref.fits && lc.Index >= 0 && lc.Index < len(rc) {
+				if ra, rb := p.start+rc[lc.Index].a, p.start+rc[lc.Index].b; a != ra || b != rb {
+					out.bad = append(out.bad, verdict{"content-placement-differs", fmt.Sprintf("%s: content #%d %v of s%d laid out at [%d,%d), the reference places it at [%d,%d)", c.short(), lc.Index, lc, p.yaml, a, b, ra, rb)})
+				}
+			}
 		}
 		if lv != nil && len(p.content) != len(contents[c.S[p.yaml].Content]) {
 			out.bad = append(out.bad, verdict{"content-lost", fmt.Sprintf("%s: s%d declares %d images, %d laid out", c.short(), p.yaml, len(contents[c.S[p.yaml].Content]), len(p.content))})
@@ -520,6 +644,31 @@ type space struct {
 	schemas                            []string
 	n                                  int // exactly n structures
 	kinds, sizes, mins, offs, ows, cts []int
+	pos                                [][]sdef // optional: the structure alphabet per position (overrides the product above)
+}
+
+// positions returns the structure alphabet of every position
+func (sp space) positions() [][]sdef {
+	if sp.pos != nil {
+		if len(sp.pos) != sp.n {
+			eng.HarnessError("space %s: %d positions for %d structures", sp.name, len(sp.pos), sp.n)
+		}
+		return sp.pos
+	}
+	l := sp.letters()
+	res := make([][]sdef, sp.n)
+	for i := range res {
+		res[i] = l
+	}
+	return res
+}
+
+func (sp space) definitions() int {
+	t := len(sp.schemas)
+	for _, l := range sp.positions() {
+		t *= len(l)
+	}
+	return t
 }
 
 func (sp space) letters() []sdef {
@@ -559,10 +708,22 @@ type witness struct {
 }
 
 func explore(r *eng.Run, sp space) {
-	letters := sp.letters()
-	L := len(letters)
-	total := pow(L, sp.n)
-	// work items: (schema, first structure); each item enumerates all completions
+	pos := sp.positions()
+	// work items: (schema, letter at the widest position); each item enumerates all completions
+	wide := 0
+	for k := range pos {
+		if len(pos[k]) > len(pos[wide]) {
+			wide = k
+		}
+	}
+	L := len(pos[wide])
+	rest := 1
+	for k := range pos {
+		if k != wide {
+			rest *= len(pos[k])
+		}
+	}
+	total := rest * L
 	var mu sync.Mutex
 	wit := map[string]*witness{}
 	classes := map[string]int64{}
@@ -574,21 +735,22 @@ func explore(r *eng.Run, sp space) {
 			return
 		}
 		schema := sp.schemas[it/L]
-		firstL := it % L
-		rest := total / L
 		var le, la, ll, ln int64
 		lc := map[string]int64{}
 		c := vcase{Schema: schema, S: make([]sdef, sp.n)}
-		c.S[0] = letters[firstL]
+		c.S[wide] = pos[wide][it%L]
 		for x := 0; x < rest; x++ {
 			if x%4096 == 0 && r.TimeUp() {
 				atomic.StoreInt32(&stop, 1)
 				break
 			}
 			y := x
-			for k := 1; k < sp.n; k++ {
-				c.S[k] = letters[y%L]
-				y /= L
+			for k := 0; k < sp.n; k++ {
+				if k == wide {
+					continue
+				}
+				c.S[k] = pos[k][y%len(pos[k])]
+				y /= len(pos[k])
 			}
 			out := judge(c)
 			le++
@@ -618,7 +780,7 @@ func explore(r *eng.Run, sp space) {
 					}
 				}
 				mu.Unlock()
-			} else if out.laidOut && sp.n >= 2 && r.WantSample() && x%977 == 0 {
+			} else if out.laidOut && sp.n >= 2 && r.WantSample() && (x+it)%977 == 0 {
 				r.Sample(vcase{Schema: c.Schema, S: append([]sdef(nil), c.S...), Yaml: c.yaml()})
 			}
 		}
@@ -680,12 +842,23 @@ func makeImages(dir string) {
 
 func TestC38(t *testing.T) {
 	debug.SetGCPercent(400)
-	r := eng.Start("C38", "exploration", 100*time.Second, 12*time.Minute)
+	r := eng.Start("C38", "exploration", 300*time.Second, 12*time.Minute)
 	r.Assume("layout = gadget.LayoutVolume(vol, gadget.OnDiskStructsFromGadget(vol)) with SkipResolveContent: the image-build path, structures at their full size",
 		"reference placement: explicit offsets respected; a structure without offset follows the previous one in yaml order, a non-mbr one not below 1 MiB when the previous end is well known",
 		"raw content images are sparse files of the exact sizes named in the definition; filesystem structures carry no content",
 		"acceptance reference (beyond the statement, calibrated on the unchanged tree): a definition whose structures are individually valid, pairwise disjoint in the reference placement and whose offset-writes lie inside the minimum volume must be accepted")
-	gadgetRoot = t.TempDir()
+	// real (sparse) image files of every file size of the alphabet, in a gadget dir under the engine's work dir
+	var err error
+	if err = os.MkdirAll(eng.WorkDir(), 0755); err == nil {
+		gadgetRoot, err = os.MkdirTemp(eng.WorkDir(), "c38-gadget-")
+	}
+	if err != nil {
+		eng.HarnessError("cannot create the gadget dir: %v", err)
+	}
+	finish := func(rule string) {
+		os.RemoveAll(gadgetRoot)
+		r.Finish(rule)
+	}
 	makeImages(gadgetRoot)
 
 	if rc := r.ReplayCase(); rc != nil {
@@ -706,7 +879,7 @@ func TestC38(t *testing.T) {
 				r.Violation(v.key, v.msg, c)
 			}
 		}
-		r.Finish("replay")
+		finish("replay")
 	}
 
 	idx := func(n int) []int {
@@ -717,6 +890,40 @@ func TestC38(t *testing.T) {
 		return res
 	}
 	allKinds := idx(4)
+	rng := func(from, to int) []int {
+		var res []int
+		for i := from; i < to; i++ {
+			res = append(res, i)
+		}
+		return res
+	}
+	cat := func(ls ...[]sdef) []sdef {
+		var res []sdef
+		for _, l := range ls {
+			res = append(res, l...)
+		}
+		return res
+	}
+	// content-size spaces: one "rich" bare structure whose content is the full product family (file size x declared
+	// size x offset per entry, 1 and 2 entries: the entry is last / followed by implicit / followed by explicit-offset
+	// content) next to one "plain" neighbour, in both orders.
+	const (
+		oImpl = 0 // indexes into offsets
+		o1M   = 2
+		o2M   = 4
+	)
+	fam12 := rng(fam1From, fam2To)
+	richMBR := func(cts []int) []sdef {
+		return space{kinds: []int{kMBR}, sizes: []int{0}, mins: []int{0}, offs: []int{oImpl}, ows: []int{0}, cts: cts}.letters()
+	}
+	richBare := func(sizes, mins, offs, cts []int) []sdef {
+		return space{kinds: []int{kBare}, sizes: sizes, mins: mins, offs: offs, ows: []int{0}, cts: cts}.letters()
+	}
+	plainMBR := []sdef{{kMBR, 0, 0, oImpl, 0, 0}}
+	plainFew := []sdef{{kBare, 1, 0, oImpl, 0, 0}, {kBare, 1, 0, o2M, 0, 0}, {kBoot, 1, 0, oImpl, 0, 0}, {kBare, 1, 0, oImpl, 0, 1}}
+	plainMany := cat(space{kinds: []int{kBare}, sizes: []int{1}, mins: []int{0}, offs: []int{oImpl, o1M, o2M}, ows: []int{0}, cts: []int{0, 1}}.letters(),
+		space{kinds: []int{kBoot}, sizes: []int{1}, mins: []int{0}, offs: []int{oImpl, o1M, o2M}, ows: []int{0}, cts: []int{0}}.letters())
+	rich2 := richBare([]int{1, 2}, []int{0, 1}, []int{oImpl, o1M, o2M}, fam12)
 	var spaces []space
 	if r.Quick() {
 		spaces = []space{
@@ -724,22 +931,32 @@ func TestC38(t *testing.T) {
 			{name: "geometry-2", schemas: []string{"gpt", "mbr"}, n: 2, kinds: allKinds, sizes: idx(4), mins: idx(3), offs: idx(5), ows: []int{0}, cts: []int{0}},
 			{name: "geometry-3", schemas: []string{"gpt"}, n: 3, kinds: []int{kMBR, kBare, kBoot}, sizes: idx(3), mins: idx(2), offs: idx(4), ows: []int{0}, cts: []int{0}},
 			{name: "offset-write-2", schemas: []string{"gpt"}, n: 2, kinds: []int{kMBR, kBare, kBoot}, sizes: idx(2), mins: idx(2), offs: idx(3), ows: idx(len(offsetWrites)), cts: []int{0}},
-			{name: "content-2", schemas: []string{"gpt"}, n: 2, kinds: []int{kMBR, kBare, kBoot}, sizes: idx(2), mins: idx(2), offs: idx(3), ows: []int{0}, cts: idx(len(contents))},
+			{name: "content-2", schemas: []string{"gpt"}, n: 2, kinds: []int{kMBR, kBare, kBoot}, sizes: idx(2), mins: idx(2), offs: idx(3), ows: []int{0}, cts: idx(legacyFamilies)},
+			{name: "content-size-2a", schemas: []string{"gpt"}, n: 2, pos: [][]sdef{cat(richMBR(fam12), rich2), plainFew}},
+			{name: "content-size-2b", schemas: []string{"gpt"}, n: 2, pos: [][]sdef{cat(plainMBR, plainFew), rich2}},
 		}
 	} else {
 		spaces = []space{
 			{name: "geometry-1", schemas: []string{"gpt", "mbr"}, n: 1, kinds: allKinds, sizes: idx(4), mins: idx(3), offs: idx(5), ows: []int{0}, cts: []int{0}},
 			{name: "geometry-2", schemas: []string{"gpt", "mbr"}, n: 2, kinds: allKinds, sizes: idx(4), mins: idx(3), offs: idx(5), ows: []int{0}, cts: []int{0}},
 			{name: "offset-write-3", schemas: []string{"gpt"}, n: 3, kinds: []int{kMBR, kBare}, sizes: idx(2), mins: idx(1), offs: idx(3), ows: idx(len(offsetWrites)), cts: []int{0}},
-			{name: "content-3", schemas: []string{"gpt"}, n: 3, kinds: []int{kMBR, kBare, kBoot}, sizes: idx(2), mins: idx(1), offs: idx(3), ows: []int{0}, cts: idx(len(contents))},
+			{name: "content-3", schemas: []string{"gpt"}, n: 3, kinds: []int{kMBR, kBare, kBoot}, sizes: idx(2), mins: idx(1), offs: idx(3), ows: []int{0}, cts: idx(legacyFamilies)},
+			{name: "content-size-2a", schemas: []string{"gpt"}, n: 2, pos: [][]sdef{cat(richMBR(fam12), rich2), plainMany}},
+			{name: "content-size-2b", schemas: []string{"gpt"}, n: 2, pos: [][]sdef{cat(plainMBR, plainMany), rich2}},
+			{name: "content-size-3entries-a", schemas: []string{"gpt"}, n: 2, pos: [][]sdef{cat(richMBR(rng(fam3From, fam3To)), richBare([]int{1}, []int{0}, []int{oImpl, o2M}, rng(fam3From, fam3To))), plainFew}},
+			{name: "content-size-3entries-b", schemas: []string{"gpt"}, n: 2, pos: [][]sdef{cat(plainMBR, plainFew), richBare([]int{1}, []int{0}, []int{oImpl, o2M}, rng(fam3From, fam3To))}},
+			{name: "content-size-mid-3", schemas: []string{"gpt"}, n: 3, pos: [][]sdef{cat(plainMBR, plainFew), richBare([]int{1}, []int{0}, []int{oImpl, o2M}, fam12), plainFew}},
 			{name: "geometry-4", schemas: []string{"gpt"}, n: 4, kinds: []int{kMBR, kBare, kBoot}, sizes: idx(2), mins: idx(2), offs: idx(3), ows: []int{0}, cts: []int{0}},
 			{name: "geometry-3", schemas: []string{"gpt"}, n: 3, kinds: allKinds, sizes: idx(4), mins: idx(3), offs: idx(5), ows: []int{0}, cts: []int{0}},
 		}
 	}
 	bounds := map[string]interface{}{}
 	for _, sp := range spaces {
-		L := len(sp.letters())
-		bounds[sp.name] = map[string]interface{}{"structures": sp.n, "schemas": sp.schemas, "structure_alphabet": L, "definitions": pow(L, sp.n) * len(sp.schemas)}
+		var L []int
+		for _, l := range sp.positions() {
+			L = append(L, len(l))
+		}
+		bounds[sp.name] = map[string]interface{}{"structures": sp.n, "schemas": sp.schemas, "structure_alphabet_per_position": L, "definitions": sp.definitions()}
 		if r.TimeUp() {
 			r.Cap("time_skipped", "space "+sp.name+" not started")
 			continue
@@ -749,5 +966,5 @@ func TestC38(t *testing.T) {
 	r.Info("bounds", bounds)
 	r.Info("alphabet", map[string]interface{}{"kinds": kindNames, "sizes": sizes, "min_size": []string{"unset", "half", "double(invalid)"}, "offsets": []string{"implicit", "0", "1MiB", "1.5MiB", "2MiB"},
 		"offset_write": "none | absolute 0,442,443,2MiB-4,2MiB-3,4MiB | s0+0,s0+442,s0+443 | s1+0", "content": "none | fills | +1 byte | two halves | second half +1 | shifted by 1 | declared smaller than image | explicitly overlapping"})
-	r.Finish("every volume definition of exactly n structures over the per-space structure alphabet (kind x size x min-size x offset x offset-write x content) and schema is rendered to gadget.yaml, validated by InfoFromGadgetYaml and, if accepted, laid out; distinct_nontrivial = accepted definitions with at least two structures (each is laid out and checked pairwise)")
+	finish("every volume definition of exactly n structures over the per-space structure alphabet (kind x size x min-size x offset x offset-write x content) and schema is rendered to gadget.yaml, validated by InfoFromGadgetYaml and, if accepted, laid out; distinct_nontrivial = accepted definitions with at least two structures (each is laid out and checked pairwise)")
 }
